@@ -263,6 +263,92 @@ def desugar_combinators(j, by_key, depth=0):
     return nj
 
 
+
+def desugar_for_each(j, by_key):
+    """`iter.for_each(|x| body)` with a closure literal is the loop `for x in iter { body }`: rewritten as such (a header
+    calling `Iterator::next`, a switch on its discriminant, the closure body spliced in with the Some payload as its
+    parameter), so that the loop rules - push loops, transcript loops, per-element guards - read it like any `for`."""
+    if len(j["blocks"]) > MAX_BLOCKS:
+        return j
+    cdefs = _closure_defs(j)
+    sites = []
+    for i, b in enumerate(j["blocks"]):
+        t = b["term"]
+        if t["k"] != "call" or t.get("target") is None or not isinstance(t.get("dest"), dict):
+            continue
+        c = t.get("callee") or {}
+        if c.get("crate") not in ("core", "std") or c.get("trait") != "Iterator" or c.get("name") != "for_each" or len(t.get("args", [])) != 2:
+            continue
+        it, cl = t["args"]
+        ipl = (it.get("move") or it.get("copy")) if isinstance(it, dict) else None
+        cpl = (cl.get("move") or cl.get("copy")) if isinstance(cl, dict) else None
+        if not ipl or "p" in ipl or not cpl or "p" in cpl or cpl["l"] not in cdefs or cdefs[cpl["l"]][0] not in by_key:
+            continue
+        h = by_key[cdefs[cpl["l"]][0]]
+        if len(h["blocks"]) > MAX_BLOCKS or h["arg_count"] != 2:
+            continue
+        sites.append(i)
+    if not sites:
+        return j
+    nj = dict(j)
+    nj["locals"] = list(j["locals"])
+    nj["blocks"] = [dict(b, stmts=list(b["stmts"])) for b in j["blocks"]]
+    nj["desugared"] = list(j.get("desugared", []))
+    blocks = nj["blocks"]
+
+    def new_local(ty="?"):
+        nj["locals"].append({"ty": ty})
+        return len(nj["locals"]) - 1
+
+    def new_block(stmts, term):
+        blocks.append({"stmts": stmts, "term": term})
+        return len(blocks) - 1
+
+    for i in sites:
+        t = blocks[i]["term"]
+        sp = t.get("sp")
+        c = t["callee"]
+        itl = (t["args"][0].get("move") or t["args"][0].get("copy"))["l"]
+        cl_local = (t["args"][1].get("move") or t["args"][1].get("copy"))["l"]
+        ity = (c.get("args") or ["?"])[0]
+        h = by_key[cdefs[cl_local][0]]
+        opt = new_local("Option<?>")
+        refl = new_local("&mut " + str(ity))
+        dl = new_local("isize")
+        unit = new_local("()")
+        exitb = new_block([{"k": "assign", "place": t["dest"], "rv": {"agg": {"tuple": True}, "ops": []}, "sp": sp}], {"k": "goto", "target": t["target"], "sp": sp})
+        unreachable = new_block([], {"k": "unreachable", "sp": sp})
+        # header: _opt = Iterator::next(&mut it)
+        next_callee = {"path": "std::iter::Iterator::next", "crate": "core", "name": "next", "local": False, "args": [ity], "args_full": [ity], "trait": "Iterator", "trait_path": "std::iter::Iterator", "trait_crate": "core", "self_ty": ity}
+        sw = new_block([{"k": "assign", "place": {"l": dl}, "rv": dict({"discr": {"l": opt}}, **OPTION), "sp": sp}], None)
+        header = new_block([{"k": "assign", "place": {"l": refl}, "rv": {"ref": {"l": itl}, "mut": True}, "sp": sp}], {"k": "call", "callee": next_callee, "args": [{"move": {"l": refl}}], "arg_tys": ["&mut " + str(ity)], "dest": {"l": opt}, "target": sw, "sp": sp, "fn_sp": sp, "mac": ["desugar:ForLoop"]})
+        # body: the closure with the Some payload as its argument
+        lo, bo = len(nj["locals"]), len(blocks)
+        nj["locals"].extend(copy.deepcopy(h["locals"]))
+        po = len(nj.get("promoted") or [])
+        if h.get("promoted"):
+            nj["promoted"] = list(nj.get("promoted") or []) + list(h["promoted"])
+        pre = []
+        envty = str(h["locals"][1].get("ty") or "") if len(h["locals"]) > 1 else ""
+        if envty.startswith("&"):
+            pre.append({"k": "assign", "place": {"l": lo + 1}, "rv": {"ref": {"l": cl_local}, "mut": envty.startswith("&mut")}, "sp": sp})
+        else:
+            pre.append({"k": "assign", "place": {"l": lo + 1}, "rv": {"use": {"copy": {"l": cl_local}}}, "sp": sp})
+        pre.append({"k": "assign", "place": {"l": lo + 2}, "rv": {"use": {"move": {"l": opt, "p": [{"dc": "Some", "vi": 1}, {"f": 0, "n": "0"}]}}}, "sp": sp})
+        for hb in h["blocks"]:
+            nb = _remap(hb, lo, bo, po if h.get("promoted") else 0)
+            if nb["term"]["k"] == "return":
+                nb["stmts"] = list(nb["stmts"]) + [{"k": "assign", "place": {"l": unit}, "rv": {"use": {"move": {"l": lo}}}, "sp": sp}]
+                nb["term"] = {"k": "goto", "target": header, "sp": sp}
+            blocks.append(nb)
+        body = new_block(pre, {"k": "goto", "target": bo, "sp": sp})
+        blocks[sw]["term"] = {"k": "switch", "discr": {"move": {"l": dl}}, "ty": "isize", "arms": [[0, exitb], [1, body]], "otherwise": unreachable, "sp": sp, "desugared_call": c.get("path")}
+        blocks[i]["term"] = {"k": "goto", "target": header, "sp": sp, "desugared_call": c.get("path")}
+        nj["desugared"].append(h["key"])
+    _retire_closures(nj)
+    return nj
+
+
 def _retire_closures(nj):
     """Closure values whose bodies were spliced in and that are not handed to any remaining call: build them as plain
     tuples of their captures (the closure function is no longer called from here)."""
